@@ -469,16 +469,20 @@ class ODE:
         tuple[atoms.Assignment, ...]
             The sorted assignments
         """
-        intermediates = self.intermediates
-        if remove_unused:
-            deps = self.dependents()
-            intermediates = tuple([a for a in intermediates if a.name in deps])
-
+        # Sort all assignments first and remove the unused intermediates afterwards, so that
+        # the relative order of the remaining assignments (and hence the slot of every state
+        # derivative) does not depend on ``remove_unused``
         names = sort_assignments(
-            assignments=intermediates + self.state_derivatives,
+            assignments=self.intermediates + self.state_derivatives,
             assignments_only=assignments_only,
         )
-        return tuple([cast(atoms.Assignment, self[name]) for name in names])
+        assignments = tuple([cast(atoms.Assignment, self[name]) for name in names])
+        if remove_unused:
+            deps = self.dependents()
+            assignments = tuple(
+                [a for a in assignments if not isinstance(a, atoms.Intermediate) or a.name in deps]
+            )
+        return assignments
 
     def sorted_state_derivatives(self) -> tuple[atoms.StateDerivative, ...]:
         """Get the state derivatives in the ODE sorted by dependencies"""
